@@ -159,9 +159,12 @@ func (b *Bytes) store(addr model.Addr, bs []byte) int {
 	b.blocks = append(b.blocks, byteBlock{})
 	copy(b.blocks[idx+1:], b.blocks[idx:])
 
+	// Copy the bytes as bs is owned by the constant stored.
+	bytesCopy := make([]byte, end-addr)
+	copy(bytesCopy, bs)
 	b.blocks[idx] = byteBlock{
 		begin: addr,
-		bytes: bs[:end-addr],
+		bytes: bytesCopy,
 	}
 
 	return int(end - addr)
